@@ -229,6 +229,10 @@ def run(ctx):
     # a reader pinned before a compaction must still find the delete vectors it lists (after seed C07-e = C08-c)
     from rules.c08 import pools_shrink_only_in_vacuum
     pools_shrink_only_in_vacuum(ctx, prog, 'C07-R7')
+    compaction_merges_what_it_retires(ctx, prog, 'C07-R8')
+    # the compactor holds the table lock for as long as it works on the table (after seed C07-f, which is seed C09-b again)
+    from rules.c09 import guard_rule
+    guard_rule(ctx, prog, 'C07-R9')
 
 
 def __places(st):
@@ -264,3 +268,89 @@ def compaction_touches_only_what_it_merged(ctx, prog, rid):
                f'{len(gd)} get_dvs_of call(s); row-set id not taken from `{b.var_name(S)}`: {[site(b, c.bb) for c in bad]}',
                [site(b, c.bb) for c in (bad or gd)],
                what='compaction retires the delete vectors of row-sets it did not merge: rows deleted from the untouched row-sets reappear')
+
+
+def compaction_merges_what_it_retires(ctx, prog, rid):
+    """C07-R8 = C18-R11: every row-set that compaction retires went into the merge"""
+    from tmpl import done_sites, origin_locals
+    ctx.rule(rid, 'compact_table retires (DeleteRowSet) every row-set it selected, so every selected row-set must have been read: once '
+                  'DiskRowset::iter has been asked for a row-set, the only ways on are the push of its iterator into the merge inputs or an '
+                  'error exit of compact_table. A row-set that is skipped (unreadable, failed checksum, "nothing visible") and retired all the '
+                  'same loses its rows for good - silently, where a scan would have reported the damage')
+    b = prog.body(COMPACT)
+    if not ctx.anchor(rid, COMPACT, b is not None):
+        return
+    ctx.functions_analysed.add(b.name)
+    starts = [c.bb for c in b.calls if (c.fn or '').endswith('DiskRowset::iter')]
+    done = done_sites(prog, b, 'DiskRowset::iter')
+    if not ctx.anchor(rid, 'compact_table: DiskRowset::iter', starts and done):
+        return
+    iter_locals = set()
+    for c in b.calls:
+        if re.search(r'Future::poll$', c.fn or '') and 'DiskRowset::iter' in (c.res or ''):
+            iter_locals.add(c.dest['l'])
+    pushes = [c.bb for c in b.calls if re.search(r'Vec::<.*>::push$', c.name or '') and len(c.args) > 1 and c.args[1]['k'] != 'const'
+              and iter_locals & origin_locals(b, c.args[1]['pl']['l'], depth=12)]
+    if not ctx.anchor(rid, 'compact_table: push of the row-set iterator into the merge inputs', pushes):
+        return
+    ends = set(starts) | set(b.return_blocks()) | {bb for bb, _ in b.aggregates(SEC + 'version_manager::EpochOp', 'DeleteRowSet')}
+    bad = []
+    for d in done:
+        reach = b.reachable_from(b.succs[d], avoid=set(pushes) | b.error_exit_blocks())
+        if reach & ends:
+            bad.append(d)
+    ctx.ob(rid, 'compact_table·every-selected-row-set-is-merged', not bad,
+           f'DiskRowset::iter completes at {done}; its iterator is pushed at {pushes}; completions from which the next row-set, the tombstones or '
+           f'the end are reachable without that push (error exits aside): {bad}', [site(b, x) for x in (bad or pushes)],
+           what='compaction can leave a selected row-set out of the merge and still retires it: after a checksum error in one row-set the '
+                'compactor writes a new row-set from the others, logs DeleteRowSet for all of them, and vacuum removes the only copy of the '
+                'damaged row-set\'s rows - queries answer Ok with those rows missing')
+
+
+def compaction_tombstones_before_commit(ctx, prog, rid):
+    """C03-R10: whatever compact_table commits, the delete vectors of the row-sets it retires are tombstoned in the same commit"""
+    from tmpl import start_sites
+    ctx.rule(rid, 'compact_table retires row-sets together with their delete vectors: every VersionManager::commit_changes it reaches is '
+                  'dominated by the loop that turns Snapshot::get_dvs_of of the retired row-sets into EpochOp::DeleteDV. A second, shorter way '
+                  'to the commit (e.g. "nothing survived the merge: just drop the old row-sets") leaves AddDV records in the log whose row-set '
+                  'is gone: replay unwraps their owner after a DROP TABLE, and a re-issued row-set id inherits the orphan delete vector')
+    b = prog.body(COMPACT)
+    if not ctx.anchor(rid, COMPACT, b is not None):
+        return
+    ctx.functions_analysed.add(b.name)
+    commits = start_sites(prog, b, 'VersionManager::commit_changes')
+    dv_aggs = [bb for bb, _ in b.aggregates(SEC + 'version_manager::EpochOp', 'DeleteDV')]
+    # the tombstones are usually built by a closure (`dvs.iter().map(|dv_id| EpochOp::DeleteDV(..))`): the place where it is created counts
+    for bb, child in b.closure_sites():
+        cb = prog.bodies.get(child)
+        if cb is not None and any(True for _ in cb.aggregates(SEC + 'version_manager::EpochOp', 'DeleteDV')):
+            dv_aggs.append(bb)
+    look = [c.bb for c in b.calls if (c.fn or '').endswith('Snapshot::get_dvs_of')]
+    # the look-ups that feed tombstones: a DeleteDV aggregate is reachable from them without passing another look-up
+    tomb = [l for l in look if b.reachable_from(b.succs[l], avoid=set(look) - {l}) & set(dv_aggs)]
+    if not (ctx.anchor(rid, 'compact_table: commit_changes', commits) and ctx.anchor(rid, 'compact_table: DeleteDV tombstones', tomb)):
+        return
+    # the tombstones sit in a `for rowset in &selected_rowsets` loop: what every commit has to pass is the head of that loop
+    heads = set()
+    for t_ in tomb:
+        hs = [c.bb for c in b.calls if re.search(r'Iterator::next$', c.fn or '') and b.dominates(c.bb, t_) and b.reaches(t_, c.bb)]
+        heads |= set(hs[-1:]) if hs else {t_}
+    retire = [bb for bb, _ in b.aggregates(SEC + 'version_manager::EpochOp', 'DeleteRowSet')]
+    for bb, child in b.closure_sites():
+        cb = prog.bodies.get(child)
+        if cb is not None and any(True for _ in cb.aggregates(SEC + 'version_manager::EpochOp', 'DeleteRowSet')):
+            retire.append(bb)
+    if not ctx.anchor(rid, 'compact_table: DeleteRowSet emission', retire):
+        return
+    bad = []
+    for e in retire:
+        reach = b.reachable_from(b.succs[e], avoid=heads | b.error_exit_blocks())
+        bad += [c for c in commits if c in reach]
+    bad += [c for c in commits if not any(b.reaches(e, c) for e in retire) and not b.dominated_by_any(heads, c)]
+    bad = sorted(set(bad))
+    ctx.ob(rid, 'compact_table·every-commit-carries-the-DV-tombstones', not bad,
+           f'commit_changes at {commits}; row-sets retired at {retire}; tombstone loop (get_dvs_of -> DeleteDV) at {tomb}, head {sorted(heads)}; commits reachable without it: {bad}',
+           [site(b, c) for c in (bad or commits)],
+           what='compact_table can commit the retirement of row-sets on a path that skips the tombstones of their delete vectors: the AddDV '
+                'records stay live in the manifest for row-sets that are gone (reopen fails after DROP TABLE; a re-issued row-set id gets the '
+                'orphan delete vector and loses acknowledged rows)')
